@@ -45,16 +45,17 @@ func (cache *HevcCache) CachePack(pack Pack) bool {
 
 	if vps { // 视频参数
 		cache.vps = rtppack
-		return false
 	}
 
 	if sps { // 序列头参数
 		cache.sps = rtppack
-		return false
 	}
 
-	if pps { // 图像参数
+	if pps { // 图像参数（聚合包可能同时携带多个参数集）
 		cache.pps = rtppack
+	}
+
+	if (vps || sps || pps) && !islice { // 仅含参数集的包不进入 GopCache
 		return false
 	}
 
@@ -87,17 +88,23 @@ func (cache *HevcCache) PushTo(q *queue.SyncQueue) int {
 	defer cache.l.RUnlock()
 
 	// 写参数包
-	if cache.vps != nil {
+	// 关键帧与参数集聚合在同一个包时，该包已是 GopCache 的首包，不重复发送
+	var first interface{}
+	if cache.cacheGop && cache.gop.Len() > 0 {
+		first = cache.gop.Get(0)
+	}
+
+	if cache.vps != nil && first != cache.vps {
 		q.Queue().Push(cache.vps)
 		bytes += cache.vps.Size()
 	}
 
-	if cache.sps != nil {
+	if cache.sps != nil && cache.sps != cache.vps && first != cache.sps {
 		q.Queue().Push(cache.sps)
 		bytes += cache.sps.Size()
 	}
 
-	if cache.pps != nil {
+	if cache.pps != nil && cache.pps != cache.sps && cache.pps != cache.vps && first != cache.pps {
 		q.Queue().Push(cache.pps)
 		bytes += cache.pps.Size()
 	}
